@@ -28,8 +28,28 @@ fn checksum(r: &mut Report, f: &[u8], class: &str) -> Option<u32> {
     }
 }
 
+/// What a receiver feed does between two good frames: for one frame in four (chosen by the frame's own hash, so that a
+/// replay does the same) the decoder is first offered inputs that are too short for the format they announce, empty,
+/// or too long. The verdict on the frame itself must not depend on it.
+fn disturb(f: &[u8]) {
+    if crate::util::fnv(f) % 4 != 0 {
+        return;
+    }
+    let k = (crate::util::fnv(f) >> 8) % 6;
+    let junk: Vec<u8> = match k {
+        0 => f[..1.min(f.len())].to_vec(),
+        1 => f[..3.min(f.len())].to_vec(),
+        2 => f[..7.min(f.len())].to_vec(),
+        3 => f[..f.len().saturating_sub(1)].to_vec(),
+        4 => vec![],
+        _ => f.iter().copied().chain([0xAA, 0x55, 0x00]).collect(),
+    };
+    let _ = guarded(|| Message::try_from(junk.as_slice()).is_ok());
+}
+
 /// true if the frame decodes as an ADS-B DF17 message
 fn accepted_df17(f: &[u8]) -> Result<bool, (String, String)> {
+    disturb(f);
     guarded(|| match Message::try_from(f) {
         Ok(m) => matches!(m.df, DF::ExtendedSquitterADSB(_)),
         Err(_) => false,
@@ -69,6 +89,7 @@ fn burst_pattern(start: usize, len: usize, inner: u64) -> Vec<u8> {
 
 fn ap_check(r: &mut Report, name: &str, f: &[u8], addr: u32) {
     r.evaluations += 1;
+    disturb(f);
     let res = guarded(|| {
         Message::try_from(f).map(|m| {
             let shown = serde_json::to_value(&m).ok().and_then(|v| v.get("icao24").and_then(|s| s.as_str().map(|s| s.to_string())));
@@ -116,7 +137,7 @@ fn ap_frames(rng: &mut Rng, addr: u32) -> Vec<(&'static str, Vec<u8>)> {
 }
 
 pub fn run(a: &Args, r: &mut Report) {
-    r.rule = "checksum: every byte value at every position of a zero 7/14-byte frame (drives all 256 table entries at every shift), random frames of both lengths; acceptance: sealed random DF17 frames must be accepted, unsealed ones rejected with the CRC error; corruption: per sampled valid frame all 112 single and 6216 double flips, all bursts of length <= 12 (quick; <= 16 thorough) through the full decoder and all bursts <= 24 bits at checksum level (thorough) or 2e5 random ones (quick); AP: random and edge addresses x DF0/4/5/16/20/21 with random payloads. distinct = distinct frames whose verdict matched".into();
+    r.rule = "checksum: every byte value at every position of a zero 7/14-byte frame (drives all 256 table entries at every shift), random frames of both lengths; acceptance: sealed random DF17 frames must be accepted, unsealed ones rejected with the CRC error; corruption: per sampled valid frame all 112 single and 6216 double flips, all bursts of length <= 12 (quick; <= 16 thorough) through the full decoder and all bursts <= 24 bits at checksum level (thorough) or 2e5 random ones (quick); AP: random and edge addresses x DF0/4/5/16/20/21 with random payloads; before one judged frame in four the decoder is offered an input that is truncated, empty or over-long (the verdict must not depend on what was decoded before). distinct = distinct frames whose verdict matched".into();
     if let Some(p) = &a.replay {
         let v: serde_json::Value = serde_json::from_str(&std::fs::read_to_string(p).unwrap()).unwrap();
         let rp = &v["replay"];
